@@ -320,6 +320,22 @@ impl<'a, MutexType, T> Drop for ChannelSendFuture<'a, MutexType, T> {
     }
 }
 
+#[cfg(futures_intrusive_verif)]
+impl<'a, MutexType, T> ChannelReceiveFuture<'a, MutexType, T> {
+    /// Verification hook: address of the embedded wait node.
+    pub fn verif_node_addr(&self) -> usize {
+        &self.wait_node as *const _ as usize
+    }
+}
+
+#[cfg(futures_intrusive_verif)]
+impl<'a, MutexType, T> ChannelSendFuture<'a, MutexType, T> {
+    /// Verification hook: address of the embedded wait node.
+    pub fn verif_node_addr(&self) -> usize {
+        &self.wait_node as *const _ as usize
+    }
+}
+
 #[cfg(feature = "alloc")]
 mod if_alloc {
     use super::*;
@@ -510,6 +526,21 @@ mod if_alloc {
                 if let Some(channel) = &self.channel {
                     channel.remove_send_waiter(&mut self.wait_node);
                 }
+            }
+        }
+        #[cfg(futures_intrusive_verif)]
+        impl<MutexType, T> ChannelReceiveFuture<MutexType, T> {
+            /// Verification hook: address of the embedded wait node.
+            pub fn verif_node_addr(&self) -> usize {
+                &self.wait_node as *const _ as usize
+            }
+        }
+
+        #[cfg(futures_intrusive_verif)]
+        impl<MutexType, T> ChannelSendFuture<MutexType, T> {
+            /// Verification hook: address of the embedded wait node.
+            pub fn verif_node_addr(&self) -> usize {
+                &self.wait_node as *const _ as usize
             }
         }
     }
